@@ -54,6 +54,7 @@ class Gen:
         self.mode = mode            # random | minimal | maximal
         self.max_depth = max_depth
         self.exotic = exotic        # non-ASCII text in comments / literals, numeric spelling variants
+        self.p_tail = 0.2           # probability that a text ending with a blank slot ends with an unterminated line comment
 
     # ------------------------------------------------------------------ lexical pieces
     def ident(self, forbid=()):
@@ -546,6 +547,14 @@ class Gen:
                     out.append(("blank", txt))
             else:
                 out.append((k, t))
+        # a text that ends with a blank slot may end with a line comment that runs to the END OF INPUT (no newline):
+        # the grammar demands the newline only when something follows the comment
+        if merged and merged[-1][0] in ("blank", "oblank") and self.lr.random() < self.p_tail:
+            tail = self.lr.choice(["//", "#"]) + self.comment_text(["\n"])
+            if out and out[-1][0] == "blank":
+                out[-1] = ("blank", out[-1][1] + tail)
+            else:
+                out.append(("blank", tail))
         return out
 
 
